@@ -344,6 +344,40 @@ mut('ok-c04-while-condition', ['C04'], PR,
     [("                if self._nextMsgLen == 0 or buffer_len < self._nextMsgLen:\n                    # no complete message buffered\n                    break\n",
       "                if not self._nextMsgLen:\n                    break\n                if buffer_len < self._nextMsgLen:\n                    break\n")], kind='benign')
 
+# ---- C10 ------------------------------------------------------------------
+OB = 'txdbus/objects.py'
+mut('c10-invalidargs-no-reply', ['C10'], OB,
+    [("        if esig != msig:\n            self._send_err(\n                msg,\n                'org.freedesktop.DBus.Error.InvalidArgs',\n                'Call to %s has wrong args (%s, expected %s)' %\n                (msg.member, msg.signature or '', m.sigIn or '')\n            )\n            return",
+      "        if esig != msig:\n            return")], ['C10.D1'])
+mut('c10-ping-double-reply', ['C10'], OB,
+    [("            self.conn.sendMessage(r)\n            return\n\n        if (\n                msg.interface == 'org.freedesktop.DBus.Introspectable'",
+      "            self.conn.sendMessage(r)\n\n        if (\n                msg.interface == 'org.freedesktop.DBus.Introspectable'")], ['C10.D1'])
+mut('c10-addCallbacks', ['C10'], OB,
+    [("            d.addCallback(send_reply)\n            d.addErrback(send_error)", "            d.addCallbacks(send_reply, send_error)")], ['C10.D3'])
+mut('c10-destination-wrong', ['C10'], OB,
+    [("                r = message.MethodReturnMessage(\n                    msg.serial,\n                    body=return_values,\n                    destination=msg.sender,",
+      "                r = message.MethodReturnMessage(\n                    msg.serial,\n                    body=return_values,\n                    destination=msg.destination,")], ['C10.D2'])
+mut('c10-error-reply-serial', ['C10'], OB,
+    [("                r = message.ErrorMessage(name, msg.serial,", "                r = message.ErrorMessage(name, msg.reply_serial,")], ['C10.D2'])
+mut('c10-no-signature-guard', ['C10'], OB,
+    [("        if esig != msig:\n", "        if esig != msig and msig:\n")], ['C10.D3'],
+    note='calls without arguments bypass the signature check')
+mut('c10-always-register', ['C10'], OB,
+    [("        if msg.expectReply:\n            def send_reply(return_values):", "        if True:\n            def send_reply(return_values):")], ['C10.D1'])
+mut('c10-unknownobject-name', ['C10'], OB,
+    [("                'org.freedesktop.DBus.Error.UnknownObject',", "                'org.freedesktop.DBus.Error.UnknownMethod',")], ['C10.D4'])
+mut('c10-direct-call', ['C10'], OB,
+    [("        d = defer.maybeDeferred(\n            o.executeMethod,\n            i,\n            msg.member,\n            msg.body,\n            msg.sender,\n        )",
+      "        d = defer.succeed(o.executeMethod(\n            i,\n            msg.member,\n            msg.body,\n            msg.sender,\n        ))")], ['C10'])
+mut('c10-errback-no-validate', ['C10'], OB,
+    [("                try:\n                    marshal.validateErrorName(name)\n                except error.MarshallingError:\n                    errMsg = ('!!(Invalid error name \"%s\")!! ' % name) + errMsg\n                    name = 'org.txdbus.InvalidErrorName'\n", "")], ['C10.D4'])
+mut('c10-introspect-falls-through', ['C10'], OB,
+    [("                self.conn.sendMessage(r)\n\n                return\n\n        # Try to get object from complete object path",
+      "                self.conn.sendMessage(r)\n\n        # Try to get object from complete object path")], ['C10.D1'])
+mut('ok-c10-sig-normalise', ['C10'], OB,
+    [("        msig = msg.signature if msg.signature is not None else ''\n        esig = m.sigIn if m.sigIn is not None else ''\n\n        if esig != msig:",
+      "        msig = msg.signature or ''\n        esig = m.sigIn or ''\n\n        if not esig == msig:")], kind='benign')
+
 # benign variants --------------------------------------------------------------
 mut('ok-int16-condexpr', ['C01', 'C02'], M,
     [("return 2, [struct.pack(lendian and '<h' or '>h', var)]",
